@@ -22,6 +22,35 @@ for rel in sorted(files):
         from sa import pyxfront
         low = pyxfront.lower(rel, text)
         out[rel] = localnames.build(low.tree, low)
+# parameter names of the repository's own callables (functions by name, classes by their constructor), kept when the name is
+# unambiguous over all modules read: used to move keyword arguments back into their positions (normalize.positionalise_new_keywords)
+sigs, clash = {}, set()
+from sa import pyxfront as _pf
+for rel in sorted(files):
+    with open(os.path.join(REPO, SRC, rel), encoding="utf-8") as f:
+        text = f.read()
+    tree = ast.parse(text) if rel.endswith(".py") else _pf.lower(rel, text).tree
+    def params(fn, drop_self):
+        a = fn.args
+        ps = [x.arg for x in a.posonlyargs + a.args]
+        return ps[1:] if drop_self and ps and ps[0] in ("self", "cls") else ps
+    def note(name, ps):
+        if name in sigs and sigs[name] != ps:
+            clash.add(name)
+        sigs[name] = ps
+    for st in tree.body:
+        if isinstance(st, (ast.FunctionDef, ast.AsyncFunctionDef)):
+            note(st.name, params(st, False))
+        elif isinstance(st, ast.ClassDef):
+            init = next((m for m in st.body if isinstance(m, ast.FunctionDef) and m.name in ("__init__", "__cinit__")), None)
+            if init is not None:
+                note(st.name, params(init, True))
+            for m in st.body:
+                if isinstance(m, ast.FunctionDef) and not m.name.startswith("__"):
+                    static = any(isinstance(d, ast.Name) and d.id == "staticmethod" for d in m.decorator_list)
+                    note("." + m.name, params(m, not static))
+out["__signatures__"] = {k: v for k, v in sigs.items() if k not in clash}
 with open(os.path.join("/verif/sa/localnames.json"), "w") as f:
     json.dump(out, f, indent=0, sort_keys=True)
-print(len(out), "modules,", sum(len(v) for v in out.values()), "functions,", sum(len(x) for v in out.values() for x in v.values()), "locals")
+mods = {k: v for k, v in out.items() if not k.startswith("__")}
+print(len(mods), "modules,", sum(len(v) for v in mods.values()), "functions,", sum(len(x) for v in mods.values() for x in v.values() if isinstance(x, list)), "locals,", len(out["__signatures__"]), "signatures")
